@@ -4,12 +4,14 @@ CONSTANTS XKinds = {"lit"}
           Aliases = {"none"}
           Delays = {"none"}
           Opts = {"eva","evb"}
+          FKinds = {"none"}
           Typed = {FALSE}
           Strs = {FALSE}
           Outs = {TRUE}
           SwapDepClasses = FALSE
           ForgetOutputs = FALSE
           DurDepsOffByOne = FALSE
+          ConstMXNotMX = FALSE
           TruthyOptions = TRUE
 INIT Init
 NEXT Next
